@@ -76,12 +76,26 @@ func cmdTimer(args []string) int {
 		}()
 		armed := false
 		var lastH, lastV int
-		for i := 0; i < *ops; i++ {
+		// a call of the trigger's own API that panics is an outcome of that call (the session ends there: the object may hold its lock)
+		panicked := false
+		guarded := func(op string, h, v int, f func()) {
+			defer func() {
+				if r := recover(); r != nil {
+					panicked = true
+					log(obj{"ev": "panic", "op": op, "h": h, "v": v, "t": now(), "what": fmt.Sprint(r)})
+				}
+			}()
+			f()
+		}
+		for i := 0; i < *ops && !panicked; i++ {
 			switch x := rnd.Intn(10); {
 			case x < 5:
 				h, v := 1+rnd.Intn(2), rnd.Intn(4)
 				t := now()
-				et.RegisterOnElection(primitives.BlockHeight(h), primitives.View(v), cb)
+				guarded("register", h, v, func() { et.RegisterOnElection(primitives.BlockHeight(h), primitives.View(v), cb) })
+				if panicked {
+					break
+				}
 				log(obj{"ev": "register", "h": h, "v": v, "t": t})
 				if !(armed && lastH == h && lastV == v) {
 					armed, lastH, lastV = true, h, v
@@ -89,7 +103,10 @@ func cmdTimer(args []string) int {
 			case x < 6:
 				func() {
 					// Stop is called by the term under the trigger's own discipline (Dispose); the trigger's lock is taken by Register only
-					et.Stop()
+					guarded("stop", 0, 0, et.Stop)
+					if panicked {
+						return
+					}
 					log(obj{"ev": "stop", "t": now()})
 					armed = false
 				}()
@@ -109,15 +126,30 @@ func cmdTimer(args []string) int {
 		}
 		mode <- 0
 		time.Sleep(2 * time.Millisecond)
-		et.Stop()
-		log(obj{"ev": "stop", "t": now()})
-		time.Sleep(5 * time.Millisecond) // let a trigger that raced the stop drain
-		mu.Lock()
-		lastRecv = nil
-		mu.Unlock()
 		fh, fv := 2, rnd.Intn(3)
-		t := now()
-		et.RegisterOnElection(primitives.BlockHeight(fh), primitives.View(fv), cb)
+		t := 0
+		if !panicked {
+			guarded("stop", 0, 0, et.Stop)
+		}
+		if !panicked {
+			log(obj{"ev": "stop", "t": now()})
+			time.Sleep(5 * time.Millisecond) // let a trigger that raced the stop drain
+			mu.Lock()
+			lastRecv = nil
+			mu.Unlock()
+			t = now()
+			guarded("register", fh, fv, func() { et.RegisterOnElection(primitives.BlockHeight(fh), primitives.View(fv), cb) })
+		}
+		if panicked {
+			close(stopReader)
+			wg.Wait()
+			mu.Lock()
+			for _, e := range events {
+				out.emit(e)
+			}
+			mu.Unlock()
+			continue
+		}
 		log(obj{"ev": "register", "h": fh, "v": fv, "t": t})
 		deadline := time.Now().Add(time.Duration(baseUs*(1<<uint(fv)))*time.Microsecond + 300*time.Millisecond)
 		received := false
